@@ -366,7 +366,8 @@ def main(argv):
         coverage.update(mod.extra_coverage(check, tier, agg))
     assumptions = mod.ASSUMPTIONS.get(check, []) if hasattr(
         mod, 'ASSUMPTIONS') else []
-    if len(agg.nontrivial) >= 2 and agg.runs >= 1:
+    if (len(agg.nontrivial) >= 2 or os.environ.get('VERIF_SUBBATCH')) \
+            and agg.runs >= 1:
         core.write_evidence(check, tier, mod.LEVEL[check], coverage,
                             assumptions, wall,
                             sum(1 for r in reported if not r['known']))
